@@ -76,13 +76,11 @@ def error_handler(error: bytearray, stage: str):
 def handle_state_step(tlv_dict, expected_state):
     actual_state = tlv_dict.get(TLV.kTLVType_State)
 
-    if actual_state is None:
-        # Some devices go against the spec and don't include kTLVType_State
-        # https://github.com/Jc2k/aiohomekit/issues/20
-        # iOS tolerates this, so we do do
-        return
-
-    if actual_state != expected_state:
+    # Some devices go against the spec and don't include kTLVType_State
+    # https://github.com/Jc2k/aiohomekit/issues/20
+    # iOS tolerates this, so we do do - but an error they report is still
+    # an error.
+    if actual_state is not None and actual_state != expected_state:
         raise InvalidError(f"Exepected state {expected_state} but got {actual_state}")
 
     if TLV.kTLVType_Error in tlv_dict:
